@@ -49,6 +49,19 @@ CLAIMS.update({
             "translator + Coq computation (vm_compute) over the complete finite tables", "4 C20"),
 })
 
+CLAIMS.update({
+    "C12": ("proof",
+            "The decoder model is a function of (tables, mode, root, input) with no state parameter; the implementation's one piece of process-global state, the memo behind TPMS_PARAMS.encrypted(), is modelled (Model/Cache.v, capacity read from /repo by the translator). "
+            "Theorems: with an unbounded memo, in every history (any interleaving of any decodes) two requests for the same class return the same synthesized type; with one entry the history A,B,A breaks it; the regenerated tables have an unbounded memo. "
+            "That nothing else carries state across decodes is NOT proved: it is validated by running histories (sequential repeats and step-wise interleaved generators) on the implementation and comparing with Python ==.",
+            "Coq proof over all histories of the cache model + translator (cache capacity) + history/interleaving runs on the implementation", "4 C12"),
+    "C15": ("proof",
+            "Theorems over all byte strings: the hex front-end accepts a text with bytes bs iff the text is a sequence of hex pairs (any case, whitespace anywhere between/inside pairs) spelling bs; the swtpm scanner on any log in the documented layout "
+            "(free text without the letter S, SWTPM_IO sections, optional control-channel text) delivers exactly the SWTPM_IO payloads. Auto detection and pcapng payload trimming are modelled and compared, not proved; dpkt's container parsing is outside the model. "
+            "Tie: Model/Frontends.v vs implementation on rendered streams, malformed text and all short strings over small alphabets; oracle: front-end events == Binary events on the carried bytes.",
+            "Coq proof (state machines vs grammar, unbounded) + correspondence incl. exhaustive short strings + end-to-end event comparison", "4 C15"),
+})
+
 PENDING_REASON = "check not built yet in this revision (work in progress; the property is applicable and planned, see DESIGN.md section 4)"
 
 
